@@ -273,43 +273,121 @@ func ruleValidateFirst(c *eng.Ctx) {
 			c.Viol(R, "tabula.(*Extractor).ensureReader#opens", fn.Pos(), fmt.Sprintf("only %d reader Open calls found, 7 formats expected", len(opens)))
 		}
 	}
-	// validateFormat
-	var detected ssa.Value
-	for _, ci := range eng.CallsNamed(vf, false, "format.DetectFromReader") {
-		for _, r := range *ci.Value().Referrers() {
-			if ex, ok := r.(*ssa.Extract); ok && ex.Index == 0 {
-				detected = ex
-			}
+	// validateFormat (possibly a pipeline of stage functions: measure, sniff, compare)
+	var sniffed func(h *ssa.Function, depth int) map[ssa.Value]bool
+	sniffed = func(h *ssa.Function, depth int) map[ssa.Value]bool {
+		out := map[ssa.Value]bool{}
+		if h == nil || h.Blocks == nil || depth > 2 {
+			return out
 		}
+		eng.Instrs(h, false, func(in ssa.Instruction) {
+			call, ok := in.(*ssa.Call)
+			if !ok {
+				return
+			}
+			first := func() ssa.Value {
+				if refs := call.Referrers(); refs != nil {
+					for _, r := range *refs {
+						if ex, ok := r.(*ssa.Extract); ok && ex.Index == 0 {
+							return ex
+						}
+					}
+				}
+				if _, isTuple := call.Type().(*types.Tuple); !isTuple {
+					return call
+				}
+				return nil
+			}
+			if eng.CalleeName(call) == "format.DetectFromReader" {
+				if v := first(); v != nil {
+					out[v] = true
+				}
+				return
+			}
+			g := eng.StaticCallee(call)
+			if g == nil || g.Pkg != h.Pkg || g == h {
+				return
+			}
+			inner := sniffed(g, depth+1)
+			if len(inner) == 0 {
+				return
+			}
+			// g hands the sniffed format back as its first result
+			for _, r := range eng.Returns(g) {
+				vals := eng.ReturnValues(r)
+				if len(vals) > 0 && inner[vals[0]] {
+					if v := first(); v != nil {
+						out[v] = true
+					}
+				}
+			}
+		})
+		return out
 	}
-	if detected == nil {
+	detectedSet := sniffed(vf, 0)
+	if len(detectedSet) == 0 {
 		c.Viol(R, "tabula.(*Extractor).validateFormat#sniff", vf.Pos(), "validateFormat does not sniff the content with format.DetectFromReader")
 		return
 	}
-	okNil := true
-	for _, r := range eng.Returns(vf) {
-		nn, known := eng.ErrValueNonNil(eng.ReturnValues(r)[0])
-		if known && nn {
-			continue
-		}
-		g := eng.GuardedBy(vf, r.Block(), func(f eng.Fact) bool {
+	matchFact := func(isDet func(ssa.Value) bool, isFmt func(ssa.Value) bool) func(eng.Fact) bool {
+		return func(f eng.Fact) bool {
 			op, x, y, ok := f.Cmp()
 			if !ok || op != token.EQL {
 				return false
 			}
 			for _, s := range [][2]ssa.Value{{x, y}, {y, x}} {
-				if s[0] != detected {
+				if !isDet(s[0]) {
 					continue
 				}
 				if k, isC := eng.ConstInt(s[1]); isC && k == 0 {
 					return true // == Unknown
 				}
-				if fr, ok := eng.LoadOfField(s[1]); ok && fr.Field == "format" {
-					return true // == e.format
+				if isFmt(s[1]) {
+					return true // == the extension's format
 				}
 			}
 			return false
-		})
+		}
+	}
+	isFormatField := func(v ssa.Value) bool {
+		fr, ok := eng.LoadOfField(v)
+		return ok && fr.Field == "format"
+	}
+	okNil := true
+	for _, r := range eng.Returns(vf) {
+		ev := eng.ReturnValues(r)[0]
+		nn, known := eng.ErrValueNonNil(ev)
+		if known && nn {
+			continue
+		}
+		// `if err != nil { return err }` after a stage failed
+		if eng.GuardedBy(vf, r.Block(), func(f eng.Fact) bool {
+			op, x, y, ok := f.Cmp()
+			return ok && op == token.NEQ && ((x == ev && eng.IsNilConst(y)) || (y == ev && eng.IsNilConst(x)))
+		}) {
+			continue
+		}
+		g := eng.GuardedBy(vf, r.Block(), matchFact(func(v ssa.Value) bool { return detectedSet[v] }, isFormatField))
+		if !g {
+			// the comparison made by a stage function that is handed the extension's format and the sniffed one
+			if call, ok := ev.(*ssa.Call); ok {
+				if h := eng.StaticCallee(call); h != nil && h.Pkg == vf.Pkg && h.Blocks != nil {
+					detIdx, fmtIdx := -1, -1
+					for i, a := range eng.ArgsWithRecv(call) {
+						if detectedSet[a] {
+							detIdx = i
+						}
+						if isFormatField(a) {
+							fmtIdx = i
+						}
+					}
+					if detIdx >= 0 && fmtIdx >= 0 && detIdx < len(h.Params) && fmtIdx < len(h.Params) {
+						dp, fp := ssa.Value(h.Params[detIdx]), ssa.Value(h.Params[fmtIdx])
+						g = okExitsGuarded(h, matchFact(func(v ssa.Value) bool { return v == dp }, func(v ssa.Value) bool { return v == fp }))
+					}
+				}
+			}
+		}
 		if !g {
 			okNil = false
 		}
